@@ -1,8 +1,10 @@
 package c09
 
 import (
+	"encoding/hex"
 	"fmt"
 	"math/rand"
+	"os"
 	"sort"
 	"testing"
 
@@ -309,7 +311,7 @@ func TestRandom(t *testing.T) {
 		for k := 0; k < 3; k++ {
 			v := g.value(ty, k == 2)
 			rb, rok := tm.RefEnc(ty, v)
-			replay := map[string]any{"type": ty, "value": v.String(), "seed": vh.Seed(), "n": n}
+			replay := map[string]any{"type": ty, "top": top, "val": v, "seed": vh.Seed(), "n": n}
 			c.checkEncode(ty, top, v, rok, rb, "random", replay)
 			if !rok {
 				continue
@@ -320,7 +322,7 @@ func TestRandom(t *testing.T) {
 			}
 			for _, b := range inputs {
 				want, rest, ok := tm.RefDec(ty, b)
-				c.checkDecode(ty, top, v, b, ok, want, rest, "random", map[string]any{"type": ty, "input": fmt.Sprintf("%x", b), "seed": vh.Seed(), "n": n})
+				c.checkDecode(ty, top, v, b, ok, want, rest, "random", map[string]any{"type": ty, "top": top, "val": v, "input": hex.EncodeToString(b), "seed": vh.Seed(), "n": n})
 			}
 		}
 		if n < 3 {
@@ -336,6 +338,45 @@ func TestRandom(t *testing.T) {
 		rep.Extra[k] = c.counts[k]
 	}
 	rep.Extra["alloc_max_over_64_per_byte"] = c.maxOver
+	if err := rep.Write(); err != nil {
+		t.Fatal(err)
+	}
+}
+
+// TestReplayRandom re-executes violations found by TestRandom (VERIF_CASES: {type, top, val, input}).
+func TestReplayRandom(t *testing.T) {
+	path := os.Getenv("VERIF_CASES")
+	if path == "" {
+		t.Skip("VERIF_CASES not set")
+	}
+	type rr struct {
+		Type  *tm.Type `json:"type"`
+		Top   bool     `json:"top"`
+		Val   tm.Val   `json:"val"`
+		Input *string  `json:"input"`
+	}
+	items, err := vh.LoadNDJSON[rr](path)
+	if err != nil {
+		t.Fatal(err)
+	}
+	rep := vh.NewReport("c09-replay-random", "re-execution of a recorded random case against the reference codec")
+	c := &checker{rep: rep, counts: map[string]int{}}
+	for _, it := range items {
+		if it.Type == nil {
+			t.Fatal("replay without type")
+		}
+		rb, rok := tm.RefEnc(it.Type, it.Val)
+		c.checkEncode(it.Type, it.Top, it.Val, rok, rb, "random", it)
+		if it.Input != nil {
+			b, err := hex.DecodeString(*it.Input)
+			if err != nil {
+				t.Fatal(err)
+			}
+			want, rest, ok := tm.RefDec(it.Type, b)
+			c.checkDecode(it.Type, it.Top, it.Val, b, ok, want, rest, "random", it)
+		}
+	}
+	rep.Replayed = len(items)
 	if err := rep.Write(); err != nil {
 		t.Fatal(err)
 	}
